@@ -788,11 +788,12 @@ impl Primitive {
                 if cfg!(feature = "debug") {
                     write!(f, "&{view}")
                 } else {
-                    write!(f, "{view}")
+                    view.fmt_recursive(f, depth)
                 }
             }
             Object(o) => write!(f, "{o}"),
-            Optional(Some(primitive)) => write!(f, "{primitive}"),
+            // a present optional is displayed like its content AT THIS DEPTH: inside a list a string keeps its quotes
+            Optional(Some(primitive)) => primitive.fmt_recursive(f, depth),
             Optional(None) => write!(f, "nil"),
             Map(map) => {
                 write!(f, "{{")?;
